@@ -71,6 +71,14 @@ def schema_flag_enum_lists_members_only(v):
 
 
 @predicate
+def schema_omits_init_false_field(v):
+    """F36: a dataclass field declared init=False is emitted by to_dict / encoders but left out of the object schema,
+    whose additionalProperties is false."""
+    f = v.get("facts", {})
+    return f.get("keyword") == "additionalProperties" and bool(f.get("rejected_extras_are_all_init_false_fields"))
+
+
+@predicate
 def schema_property_names_typed_as_python_key(v):
     """F10: propertyNames of a mapping schema is the schema of the Python key type (integer, number, enum of ints, ...)
     although JSON object keys are always strings."""
